@@ -17,6 +17,7 @@ from ..core import where_of, trace_of
 from ..interp import fmt, contains, subterms
 from ..model import AnalysisError, ClassInfo
 from .. import q
+from .. import roles
 from .c11 import helper_lock_field
 
 DISPATCHING = {"set_result", "set_exception", "set_exception_info", "cancel", "add_done_callback"}
@@ -122,7 +123,7 @@ def check(ctx, rep):
     # callbacks are dispatched outside the dispatching future's own lock (shared with C02)
     from .c02 import trans_rule
     futc = prog.cls("_Future")
-    trans_rule(ctx, rep, [c for c in prog.subclasses(futc, strict=True)], futc.methods["_me_invoke_callbacks"], "_me_lock")
+    trans_rule(ctx, rep, [c for c in prog.subclasses(futc, strict=True)], roles.proto(ctx).dispatch, roles.proto(ctx).lock)
 
     rs = roots(ctx)
     rep.count("entry points analysed (public methods, worker loops, callbacks, combinators)", len(rs), 120)
